@@ -190,6 +190,15 @@ def c01_family(tier, n):
 
             out.append(scn(f'join2+ephsrc/{p1}/{p2}/{order}', fs, quiet_ms=600))
 
+    # a join that wakes up when idle (sources_timeout): its receive times out holding the fast source's complete set for id k, it processes
+    # nothing, sends (the expected id moves on to k+1) and receives again - what it still holds for id k must go
+    for late, to in [(250, 100), (150, 100), (450, 200)]:
+        for order in ['fast-first', 'slow-first']:
+            srcs = ['s1', 's2;main>other'] if order == 'fast-first' else ['s2;main>other', 's1']
+            out.append(scn(f'join2-idle-timeout/late{late}/{to}/{order}',
+                           [src(n + 1, 's1', period=0), {**src(n + 1, 's2', period=30), 'start_at': late},
+                            {**relay('j', srcs), 'config': {'sources_timeout': to}}, sink('snk', ['j'])], quiet_ms=late + 500, horizon_ms=late + 900))
+
     # the side channel's ids grow faster than the join's (a relay that drops every other id of a paced generator): every side message the
     # join reads after its first set is ahead of the id being assembled, also while one joined source is complete and the other is not
     for p1, p2 in [(0, 30)]:
@@ -406,12 +415,12 @@ def c02_order_family(tier, n):
     """C01's family (arbitrary delays) plus restarts of publisher / relay / consumer."""
 
     full = tier == 'thorough'
-    base = [s for s in c01_family(tier, n) if s['name'].split('/')[0] in ('chain3', 'rejoin2', 'tee', 'join2')]
+    base = [s for s in c01_family(tier, n) if s['name'].split('/')[0] in ('chain3', 'rejoin2', 'tee', 'join2', 'join2-idle-timeout')]
 
     if not full:
         keep = ('chain3/pass/mid', 'chain3/skip1/mid', 'chain3/slow30/mid;main>other', 'rejoin2/pass/pass/b1|b2;main>other',
                 'rejoin2/skip1/pass/b1|b2;main>other', 'rejoin2/pass/skip1/b1|b2;main>other', 'rejoin2/slow30/skip1/b1|b2;main>other',
-                'tee/pass/skip1', 'tee/slow30/pass', 'join2/0/30/s1|s2;main>other')
+                'tee/pass/skip1', 'tee/slow30/pass', 'join2/0/30/s1|s2;main>other', 'join2-idle-timeout/late250/100/fast-first', 'join2-idle-timeout/late150/100/slow-first')
         base = [s for s in base if s['name'] in keep]
 
     return base
@@ -698,6 +707,12 @@ def c05_family(tier, n):
 
                     fs.append({**sink('watch', [f'spl{m}']), 'start_at': late})
                     out.append({**timely(scn(f'bal-listen/{speeds}/{m}/late{late}/{"shared" if shared else "plain"}', fs), quiet=900), 'balanced_listen': True})
+
+    # the load-balancing family's listener scenarios belong here as well (a '?' / '??' listener on a worker's branch, behind a worker, or on
+    # a branch that has no synchronized consumer at all - such a branch must never be given a frame)
+    for s_ in c07_family(tier, max(3, n - 2)):
+        if s_['name'].split('/')[0] in ('bal2-qwatcher', 'bal2-watcher-only', 'bal2-qwatcher-shared'):
+            out.append({**s_, 'name': 'bal-' + s_['name'], 'balanced_listen': True})
 
     # killed listener (hard kill at every step of the reference run)
     for m in ['?', '??']:
